@@ -6,7 +6,9 @@ def unprefixGuard : String := "i!=-1"
 def unprefixSliceLow : String := "i+1"
 def unprefixSliceHigh : String := "-"
 def unprefixWrap : String := "strings.TrimSpace"
-def unprefixAliases : Bool := true
+def unprefixAliases : Bool := false
+def unprefixCopies : String := "slices.Clone"
+def unprefixReturnsLocal : Bool := true
 def checkEmptyGuard : Bool := true
 def checkUsesUnprefixed : Bool := true
 def checkFirstCompare : Bool := true
